@@ -14,7 +14,7 @@ Record InvG (s : state) : Prop := {
       Permutation (ctaken ca) (dmsgs c (delivered s) ++ live s c)
 }.
 
-Lemma InvG_init : InvG init.
+Lemma InvG_init b : InvG (init_of b).
 Proof.
   constructor; cbn; intros;
     match goal with H : nth_error [] ?x = Some _ |- _ => destruct x; discriminate end.
@@ -188,7 +188,7 @@ Qed.
 
 Lemma InvG_recv_batch s p pl b :
   Inv1 s -> Inv2 s -> Inv4 s -> InvG s -> nth_error (polls s) p = Some pl ->
-  ppc pl = LRecv \/ ppc pl = LWait -> nth_error (chans s) p = Some (VBatch b) ->
+  ppc pl = LRecv \/ ppc pl = LWait \/ ppc pl = LTimedOut -> nth_error (chans s) p = Some (VBatch b) ->
   let s' := set_poll (set_chans (set_delivered (set_caches s (fst (deliver (pid pl) b (caches s) (delivered s))))
                                           (snd (deliver (pid pl) b (caches s) (delivered s))))
                            (upd p VEmpty (chans s)))
@@ -197,7 +197,7 @@ Lemma InvG_recv_batch s p pl b :
 Proof.
   intros HJ HD HO HG Hp Hpc Hb s' HO'.
   assert (Hlt : p < length (polls s)) by (eapply nth_error_lt; eauto).
-  assert (Hpa : poll_active pl = true) by (unfold poll_active; destruct Hpc as [-> | ->]; reflexivity).
+  assert (Hpa : poll_active pl = true) by (unfold poll_active; destruct Hpc as [-> |[-> | ->]]; reflexivity).
   assert (Hfree : free s p) by (eapply free_of_nonempty; eauto; discriminate).
   pose proof (deliver_same (pid pl) b (caches s) (delivered s)) as Hsame.
   pose proof (t_chan s HD _ _ _ Hp Hb) as [Hb1 Hb2].
@@ -218,7 +218,7 @@ Proof.
     { intros q ql Hne Hq. rewrite !live_poll_unfold. unfold s'. sproj. rewrite chent_same_upd_other by auto. reflexivity. }
     exists R1, R2. split.
     - rewrite E1. rewrite live_poll_unfold, Hpa, (chent_at _ c p _ Hb). cbn [cval_ents].
-      destruct Hpc as [-> | ->]; cbn [sending_ents]; rewrite app_nil_r; reflexivity.
+      destruct Hpc as [-> |[-> | ->]]; cbn [sending_ents]; rewrite app_nil_r; reflexivity.
     - rewrite E2. reflexivity. }
   assert (Hdl : forall c, dmsgs c (delivered s') = dmsgs c (delivered s) ++ ents c b).
   { intros c. unfold s'. sproj. rewrite deliver_log, dmsgs_app, dmsgs_pairs. reflexivity. }
@@ -265,7 +265,7 @@ Proof.
           destruct (poll_active ql) eqn:Ha; [|reflexivity].
           unfold s'. sproj. rewrite chent_same_upd_other by auto.
           replace (chent (chans s) c q) with (@nil Z); [replace (sending_ents c (ppc ql)) with (@nil Z); [reflexivity|]|].
-          + symmetry. destruct (ppc ql) as [| | |sb| | | |r] eqn:Epc; try reflexivity. cbn.
+          + symmetry. destruct (ppc ql) as [| | |sb| | | | |r] eqn:Epc; try reflexivity. cbn.
             apply ents_nil_other. intros e' Hin' Ec'.
             pose proof (t_psub s HD _ _ _ Hq Epc) as (_ & Hq1 & _). eapply Forall_forall in Hq1; [|exact Hin'].
             pose proof (Hown _ _ Hq1 Ec') as Hid.
@@ -421,7 +421,7 @@ Proof.
     + left; reflexivity.
     + intros cx q Hne. apply chent_same_upd_other; auto.
     + intros cx. lp_simpl. rewrite (chent_at (chans s) cx p VNil) by exact H0.
-      destruct H as [-> | ->]; reflexivity.
+      destruct H as [-> |[-> | ->]]; reflexivity.
     + right. apply Hfree.
     + intros q b Hq. upd_cases Hq; [discriminate|]. split; auto; intros; congruence.
   - (* recv_batch *)
@@ -443,6 +443,21 @@ Proof.
   - (* timeout *)
     cbn in Htag. destruct Htag as (pl0 & Hp0 & Hreg). rewrite Hp in Hp0. inversion Hp0; subst pl0.
     destruct (i_reg s HJ _ _ Hreg) as (pl1 & A & B & C & D & E).
+    eapply (InvG_poll_quiet s _ p pl (LDone RTimeout) (chans s) _ HG Hp); [reflexivity|reflexivity|reflexivity|reflexivity|reflexivity|..].
+    + right. eexists. reflexivity.
+    + intros cx q _; reflexivity.
+    + intros cx. lp_simpl; rewrite H; cbn [sending_ents]. rewrite (chent_at (chans s) cx p VEmpty) by exact D. reflexivity.
+    + right. exact E.
+    + intros q b Hq. split; auto. intros ->. congruence.
+  - (* timer (fixed) *)
+    eapply (InvG_poll_quiet s _ p pl LTimedOut (chans s) (works s) HG Hp); [reflexivity|reflexivity|reflexivity|reflexivity|reflexivity|..].
+    + left; reflexivity.
+    + intros cx q _; reflexivity.
+    + intros cx. lp_simpl; rewrite H; cbn [sending_ents]. reflexivity.
+    + left. unfold poll_active. rewrite H. reflexivity.
+    + intros q b Hq. split; auto.
+  - (* withdraw (fixed) *)
+    destruct (i_reg s HJ _ _ H0) as (pl1 & A & B & C & D & E).
     eapply (InvG_poll_quiet s _ p pl (LDone RTimeout) (chans s) _ HG Hp); [reflexivity|reflexivity|reflexivity|reflexivity|reflexivity|..].
     + right. eexists. reflexivity.
     + intros cx q _; reflexivity.
@@ -522,7 +537,7 @@ Proof.
   - symmetry. apply flat_mapi_nil. intros q ql Hq. cbn [Nat.add]. rewrite live_poll_unfold.
     destruct (poll_active ql); [|reflexivity].
     replace (chent (chans s) c q) with (@nil Z); [replace (sending_ents c (ppc ql)) with (@nil Z); [reflexivity|]|].
-    + symmetry. destruct (ppc ql) as [| | |sb| | | |r] eqn:Epc; try reflexivity. cbn.
+    + symmetry. destruct (ppc ql) as [| | |sb| | | | |r] eqn:Epc; try reflexivity. cbn.
       pose proof (t_psub s HD _ _ _ Hq Epc) as (_ & Hq1 & _). eapply Hent; eauto.
     + symmetry. unfold chent. destruct (nth_error (chans s) q) as [[| |b']|] eqn:Eq; try reflexivity. cbn.
       pose proof (t_chan s HD _ _ _ Hq Eq) as [Hq1 _]. eapply Hent; eauto.
@@ -574,8 +589,8 @@ Proof.
       - intros sb0 E0. inversion E0; subst. exact Hact. }
     { (* batch: the result moves from the worker into the channel of an active poll *)
       assert (Hpa : poll_active plr = true) by (unfold active_at in Hact; rewrite A in Hact; exact Hact).
-      assert (Hwait : ppc plr = LWait).
-      { destruct C as [C|C]; [exact C|]. unfold poll_active in Hpa. rewrite C in Hpa. discriminate. }
+      assert (Hwait : forall c0, sending_ents c0 (ppc plr) = []).
+      { intros c0. destruct C as [C|[C|C]]; rewrite C; reflexivity. }
       set (h := {| wf := WHb (sid sb) (length (sigch s)) HbUpsert; wsub := None |}).
       match goal with |- InvG ?st => set (s2 := st) end.
       assert (Ew2 : works s2 = upd w {| wf := wf wk; wsub := None |} (works s) ++ [h]).
@@ -774,6 +789,7 @@ Proof.
     + destruct (sub_rel_eff _ _ _ _ H3) as (Ep & _).
       eapply (Hgen _ (polls s1)); [|exact Ep|reflexivity]. destruct o as [sb'|[|]]; discriminate.
     + destruct Ht.
+    + destruct Ht.
   - intros p pl Hp. rewrite (work_rel_polls _ _ _ _ _ H1) in Hp. eauto.
 Qed.
 
@@ -785,7 +801,7 @@ Proof.
   - inversion H1; subst.
     destruct (i_reg s HJ _ _ H5) as (pl & A & B & C & D & E).
     cbn. unfold active_at. rewrite A. unfold poll_active.
-    destruct C as [-> | C]; [reflexivity|]. elim (HN _ _ A C).
+    destruct C as [-> |[-> | C]]; [reflexivity|reflexivity|]. elim (HN _ _ A C).
 Qed.
 
 Lemma greach_no_timeout_ok s : greach (fun _ => tag_no_timeout) s -> greach tag_ok s /\ no_stale s.
